@@ -37,6 +37,22 @@ def tl_open(role, T, t0, x, reaction):
                                                reaction=None if reaction is None else t0 + x, rkind=(reaction or ["none"])[0]))
 
 
+def tl_proxy(T, t0, xp, xh):
+    """client behind an explicit proxy (PROXY_CONNECTING): the proxy answers 2xx at t0+xp (or never), the server behind
+    it completes the WebSocket handshake at t0+xh (or never).  The opening-handshake timer armed at connectionMade
+    covers both phases: the deadline stays t0+T"""
+    cfg = base_cfg(role="client", openTO=T, t0=t0, closeTO=1000, dropTO=1000, proxy=True)
+    evs = []
+    if xp is not None:
+        evs += [["tick", t0 + xp], ["proxyok"]]
+    if xh is not None:
+        evs += [["tick", t0 + xh], ["hs"]]
+    evs += [["tick", t0 + T + 2000], ["ownDrop"], ["tick", t0 + T + 4000]]
+    responsive = xp is not None and xh is not None and xh >= xp
+    return dict(cfg=cfg, events=evs, meta=dict(timer="open", T=T, armed=t0, D=t0 + T, reaction=(t0 + xh) if responsive else None,
+                                               rkind="proxy+hs" if responsive else ("proxy-then-silent" if xp is not None else "proxy-silent")))
+
+
 def tl_close(role, T, t0, x, reaction, fbd=True):
     tc = t0 + 250
     cfg = base_cfg(role=role, openTO=2000, closeTO=T, dropTO=1000, t0=t0, failByDrop=fbd)
@@ -210,6 +226,15 @@ def families(quick):
                 for x in offsets(T, True):
                     L.append(tl_open(role, T, t0, x, ["badhs"]))
                     L.append(tl_open(role, T, t0, x, ["peerDrop", False]))
+    L = fam.setdefault("proxy", [])
+    for T in SETTINGS:
+        for t0 in t0s:
+            L.append(tl_proxy(T, t0, None, None))
+            for xp in sorted({0, 250, max(0, T - 1125), max(0, T - 250), T + 125}):
+                L.append(tl_proxy(T, t0, xp, None))
+                for xh in offsets(T, quick):
+                    if xh >= xp:
+                        L.append(tl_proxy(T, t0, xp, xh))
     L = fam.setdefault("close", [])
     for role in roles:
         for T in SETTINGS:
